@@ -236,7 +236,11 @@ def run(chk):
             chk.ob("C08-R2", "%s%s global time = (start time + durations of the earlier segments) + local time" % (cls, inst), okg, where, det, construct="%s/sample%s/t_global" % (cls, inst))
             chk.ob("C08-R2", "%s%s segment index argument is the segment being integrated" % (cls, inst), sample[2] == i, where, str(sample[2]), construct="%s/sample%s/index" % (cls, inst))
             coef_names = {a[0] for v in sample[3:8] if isinstance(v, Vec) for a in v.t}
-            okc = coef_names == {ws + ".spline.trajectory_.coefficients_"} or (len(coef_names) == 1 and next(iter(coef_names)).startswith(ws + ".spline.") and next(iter(coef_names)).endswith("coefficients_"))
+            from .common import workspace_spline_field
+            spn = workspace_spline_field(F, cls + "::Workspace")[0]
+            # the coefficient array reached through the workspace's spline member and that spline's trajectory (whatever
+            # the members are called: the path goes workspace . spline . <PPolyND member> . <its coefficient member>)
+            okc = len(coef_names) == 1 and next(iter(coef_names)).startswith(ws + "." + spn + ".") and next(iter(coef_names)).count(".") == 3
             chk.ob("C08-R2", "%s%s states are built from the workspace spline's published coefficients" % (cls, inst), okc, where, str(coef_names), construct="%s/sample%s/coeff-source" % (cls, inst))
             cname = next(iter(coef_names)) if coef_names else "?"
             cs = spec.coeff_atoms(cname, Kc * i, Kc)
